@@ -35,6 +35,7 @@ MAP = [
     ('default-initialised vectors with FixedSize parameters had indeterminate fixed sizes', 'C18'),
     ('whole-buffer comparison ignored the element count of vectors with zero-sized elements', 'C13'),
     ('iterators of vectors without VaryingSize parameters were not default constructible', 'C11'),
+    ('structured bindings of a const ContiguousElement were ill-formed', 'C20'),
 ]
 
 ROOT = os.path.dirname(os.path.dirname(os.path.abspath(__file__)))
